@@ -173,7 +173,7 @@ theorem Bal.swap {s : Sys} (h : Bal s) : Bal s.swap := by
 theorem exc_step {s s' : Sys} {e : Ev} (hg : GoodA s) (hb : Base s) (hb' : Base s.swap) (h : stepG s e = some s')
     (ha : s.a.awaitingRaa = true → s'.a.awaitingRaa = true) (hbw : s.b.awaitingRaa = true → s'.b.awaitingRaa = true)
     (id : Nat) : exc (cfgA s' id) = exc (cfgA s id) := by
-  rcases cfgA_step hb hb' h id with e1 | ⟨m, hm, hmc⟩
+  rcases cfgA_step hb hb' h id (hg id) with e1 | ⟨m, hm, hmc⟩
   · rw [e1]
   · have h1 := List.all_eq_true.1 (good_exc_moves _ (hg id)) m hm
     rw [hmc] at h1
@@ -195,11 +195,11 @@ theorem EA_step_map {s s' : Sys} {e : Ev} (hg : GoodA s) (hb : Base s) (hb' : Ba
   · intro x _; exact (hgid x).2
 
 theorem EA_swap_unchanged {s s' : Sys} {e : Ev} (hg' : GoodA s.swap) (hb : Base s) (hb' : Base s.swap)
-    (h : stepG s e = some s') (hbout : s'.b.outb = s.b.outb)
+    (h : stepG s e = some s') (g' : OutHtlc → OutHtlc) (hg'id : ∀ x, (g' x).id = x.id ∧ (g' x).amt = x.amt)
+    (hbout : s'.b.outb = s.b.outb.map g')
     (ha : s.a.awaitingRaa = true → s'.a.awaitingRaa = true) (hbw : s.b.awaitingRaa = true → s'.b.awaitingRaa = true) :
     EA s'.swap = EA s.swap :=
-  EA_step_map hg' hb' (by simpa using hb) (stepG_swap h) hbw ha (fun x => x)
-    (by show s'.b.outb = s.b.outb.map (fun x => x); rw [hbout]; simp) (fun _ => ⟨rfl, rfl⟩)
+  EA_step_map hg' hb' (by simpa using hb) (stepG_swap h) hbw ha g' hbout hg'id
 
 /-- non-revoke messages rewrite `outb` pointwise (never reviving a dead HTLC) and touch neither the
     balance nor the awaiting flag -/
@@ -240,7 +240,7 @@ theorem onMsg_nonraa {n n' : Node} {total : Nat} {m : Msg} {ok : Bool} (hok : No
 theorem Bal.commit_true {s s' : Sys} {adds fu fa : List Nat} (hbal : Bal s) (hg : GoodA s) (hg' : GoodA s.swap)
     (hb : Base s) (hb' : Base s.swap) (h : stepG s (.commit true adds fu fa) = some s') : Bal s' := by
   obtain ⟨hk, h0⟩ := stepG_some h
-  obtain ⟨hp, n, ms, hc, e⟩ := step_commit_true h0
+  obtain ⟨_, hp, n, ms, hc, e⟩ := step_commit_true h0
   obtain ⟨haw, _, en, ems⟩ := commit_some hc
   have hfund : adds.sum + liveSum s.a ≤ s.a.valueToSelf := by
     simp only [evOk, Bool.and_eq_true, decide_eq_true_eq] at hk; exact hk.2
@@ -260,7 +260,7 @@ theorem Bal.commit_true {s s' : Sys} {adds fu fa : List Nat} (hbal : Bal s) (hg 
     show sumBy s.a.outb (fun x => exc (cfgA s' x.id)) (fun x => x.amt) + sumBy (mkOuts s.a.nextOutId adds) (fun x => exc (cfgA s' x.id)) (fun x => x.amt) = _
     rw [z, Nat.add_zero]
     exact sumBy_congr (fun x _ => exc_step hg hb hb' h ha1 hb1 x.id) (fun _ _ => rfl)
-  have hEB : EA s'.swap = EA s.swap := EA_swap_unchanged hg' hb hb' h (by rw [e]) ha1 hb1
+  have hEB : EA s'.swap = EA s.swap := EA_swap_unchanged hg' hb hb' h (fun x => x) (fun _ => ⟨rfl, rfl⟩) (by rw [e]; simp) ha1 hb1
   refine ⟨?_, ?_, ?_⟩
   · rw [hEA, hEB]
     have : s'.a.valueToSelf = s.a.valueToSelf ∧ s'.b.valueToSelf = s.b.valueToSelf ∧ s'.total = s.total := by
@@ -281,30 +281,42 @@ theorem Bal.commit_true {s s' : Sys} {adds fu fa : List Nat} (hbal : Bal s) (hg 
     show Funded s'.b
     rw [this]; exact hbal.fb
 
-/-- steps after which both nodes' lists, balances and awaiting flags are what they were -/
+/-- steps after which both nodes' balances and awaiting flags are what they were and their outbound lists are
+    rewritten pointwise (ids and amounts kept, no dead HTLC revived) -/
 theorem Bal.quiet {s s' : Sys} {e : Ev} (hbal : Bal s) (hg : GoodA s) (hg' : GoodA s.swap)
     (hb : Base s) (hb' : Base s.swap) (h : stepG s e = some s')
     (g : OutHtlc → OutHtlc) (hgid : ∀ x, (g x).id = x.id ∧ (g x).amt = x.amt)
     (hlive : ∀ x ∈ s.a.outb, liveOut (g x).st = true → liveOut x.st = true)
-    (h1 : s'.a.outb = s.a.outb.map g) (h2 : s'.b.outb = s.b.outb)
+    (g' : OutHtlc → OutHtlc) (hgid' : ∀ x, (g' x).id = x.id ∧ (g' x).amt = x.amt)
+    (hlive' : ∀ x ∈ s.b.outb, liveOut (g' x).st = true → liveOut x.st = true)
+    (h1 : s'.a.outb = s.a.outb.map g) (h2 : s'.b.outb = s.b.outb.map g')
     (h3 : s'.a.valueToSelf = s.a.valueToSelf) (h4 : s'.b.valueToSelf = s.b.valueToSelf)
     (h5 : s'.a.awaitingRaa = s.a.awaitingRaa) (h6 : s'.b.awaitingRaa = s.b.awaitingRaa) (h7 : s'.total = s.total) : Bal s' := by
   have ha1 : s.a.awaitingRaa = true → s'.a.awaitingRaa = true := by intro hh; rw [h5]; exact hh
   have hb1 : s.b.awaitingRaa = true → s'.b.awaitingRaa = true := by intro hh; rw [h6]; exact hh
   have hEA : EA s' = EA s := EA_step_map hg hb hb' h ha1 hb1 g h1 hgid
-  have hEB : EA s'.swap = EA s.swap := EA_swap_unchanged hg' hb hb' h h2 ha1 hb1
+  have hEB : EA s'.swap = EA s.swap := EA_swap_unchanged hg' hb hb' h g' hgid' h2 ha1 hb1
+  have key : ∀ (l : List OutHtlc) (f : OutHtlc → OutHtlc), (∀ x, (f x).id = x.id ∧ (f x).amt = x.amt) →
+      (∀ x ∈ l, liveOut (f x).st = true → liveOut x.st = true) →
+      sumBy (l.map f) (fun h => liveOut h.st) (·.amt) ≤ sumBy l (fun h => liveOut h.st) (·.amt) := by
+    intro l f hf hl
+    rw [sumBy_map]
+    have e1 : sumBy l (fun x => liveOut (f x).st) (fun x => (f x).amt)
+        = sumBy l (fun x => liveOut (f x).st) (·.amt) := sumBy_congr (fun _ _ => rfl) (fun x _ => (hf x).2)
+    rw [e1]; exact sumBy_mono _ hl
   refine ⟨by rw [hEA, hEB, h3, h4, h7]; exact hbal.cons, ?_, ?_⟩
   · show liveSum s'.a ≤ s'.a.valueToSelf
-    rw [liveSum_eq, h1, h3, sumBy_map]
-    have : sumBy s.a.outb (fun x => liveOut (g x).st) (fun x => (g x).amt) ≤ liveSum s.a := by
-      rw [liveSum_eq]
-      have e1 : sumBy s.a.outb (fun x => liveOut (g x).st) (fun x => (g x).amt)
-          = sumBy s.a.outb (fun x => liveOut (g x).st) (·.amt) := sumBy_congr (fun _ _ => rfl) (fun x _ => (hgid x).2)
-      rw [e1]; exact sumBy_mono _ hlive
-    exact Nat.le_trans this hbal.fa
+    rw [liveSum_eq, h1, h3]
+    have := key s.a.outb g hgid hlive
+    have h4' : liveSum s.a ≤ s.a.valueToSelf := hbal.fa
+    rw [liveSum_eq] at h4'
+    omega
   · show liveSum s'.b ≤ s'.b.valueToSelf
-    have : liveSum s'.b = liveSum s.b := by unfold liveSum; rw [h2]
-    rw [this, h4]; exact hbal.fb
+    rw [liveSum_eq, h2, h4]
+    have := key s.b.outb g' hgid' hlive'
+    have h4' : liveSum s.b ≤ s.b.valueToSelf := hbal.fb
+    rw [liveSum_eq] at h4'
+    omega
 
 theorem raaGained_eq (n : Node) : raaGained n = sumBy n.inb (fun h => h.st == .localRemoved true) (·.amt) := rfl
 theorem raaLost_eq (n : Node) : raaLost n = sumBy n.outb (fun h => h.st == .awaitingRemovedRemoteRevoke true) (·.amt) := rfl
@@ -314,11 +326,11 @@ theorem Bal.recv_raa {s s' : Sys} {rest : List Msg} (hbal : Bal s) (hg : GoodA s
     (hb : Base s) (hb' : Base s.swap) (hamt' : Amt s.swap)
     (h : stepG s (.recv true) = some s') (hq0 : s.qba = Msg.raa :: rest) : Bal s' := by
   obtain ⟨hk, h0⟩ := stepG_some h
-  have hO := fun id => cfgA_recv_true_raa hb h0 hq0 id
+  have hO := fun id => cfgA_recv_true_raa hb hb' h0 hq0 id
   have h0' : step s.swap (.recv false) = some s'.swap := by
     have := step_swap s (.recv true); rw [h0] at this; exact this
-  have hI := fun id => cfgA_recv_false_raa (s := s.swap) (by simpa using hb) h0' (show s.swap.qab = Msg.raa :: rest from hq0) id
-  obtain ⟨m, rest', n, okb, hq, hm, e⟩ := step_recv_true h0
+  have hI := fun id => cfgA_recv_false_raa (s := s.swap) hb' (by simpa using hb) h0' (show s.swap.qab = Msg.raa :: rest from hq0) id
+  obtain ⟨_, m, rest', n, okb, hq, hm, e⟩ := step_recv_true h0
   rw [hq0] at hq
   injection hq with hq1 hq2
   subst hq1; subst hq2
@@ -451,60 +463,104 @@ theorem Bal.recv_raa {s s' : Sys} {rest : List Msg} (hbal : Bal s) (hg : GoodA s
   · show Funded s'.b
     rw [hsb]; exact hbal.fb
 
+theorem pause_outb_map (n : Node) : ∃ g : OutHtlc → OutHtlc, n.pause.outb = n.outb.map g ∧
+    (∀ x, (g x).id = x.id ∧ (g x).amt = x.amt) ∧ ∀ x, liveOut (g x).st = true → liveOut x.st = true := by
+  cases hp : n.paused
+  · rw [pause_unpaused hp]
+    refine ⟨unRR, rfl, fun x => ⟨unRR_id x, unRR_amt x⟩, ?_⟩
+    intro x hx
+    rw [unRR_st] at hx
+    cases hs : x.st <;> simp [hs, unRRst, liveOut] at hx ⊢ <;> exact hx
+  · rw [pause_paused hp]
+    exact ⟨fun x => x, by simp, fun _ => ⟨rfl, rfl⟩, fun _ h => h⟩
+
+/-- events acted by `a` (or by both) -/
+def trueSide : Ev → Prop
+  | .commit x _ _ _ => x = true
+  | .release x => x = true
+  | .sendRaa x => x = true
+  | .recv y => y = true
+  | .disconnect => True
+  | .reest y => y = true
+
 theorem Bal.step_true {s s' : Sys} {e : Ev} (hbal : Bal s) (hg : GoodA s) (hg' : GoodA s.swap)
-    (hb : Base s) (hb' : Base s.swap) (hamt' : Amt s.swap) (h : stepG s e = some s')
-    (he : match e with | .commit x _ _ _ => x = true | .release x => x = true | .sendRaa x => x = true | .recv y => y = true) :
+    (hb : Base s) (hb' : Base s.swap) (hamt' : Amt s.swap) (h : stepG s e = some s') (he : trueSide e) :
     Bal s' := by
   obtain ⟨hk, h0⟩ := stepG_some h
+  have idm : ∀ l : List OutHtlc, l = l.map (fun x => x) := by intro l; simp
   cases e with
   | commit x adds fu fa =>
-    simp only at he; subst he
+    simp only [trueSide] at he; subst he
     exact hbal.commit_true hg hg' hb hb' h
   | release x =>
-    simp only at he; subst he
-    obtain ⟨_, _, e⟩ := step_release_true h0
-    exact hbal.quiet hg hg' hb hb' h (fun x => x) (fun _ => ⟨rfl, rfl⟩) (fun _ _ hh => hh) (by rw [e]; simp) (by rw [e]) (by rw [e]) (by rw [e])
-      (by rw [e]) (by rw [e]) (by rw [e])
+    simp only [trueSide] at he; subst he
+    obtain ⟨_, _, _, e⟩ := step_release_true h0
+    exact hbal.quiet hg hg' hb hb' h (fun x => x) (fun _ => ⟨rfl, rfl⟩) (fun _ _ hh => hh)
+      (fun x => x) (fun _ => ⟨rfl, rfl⟩) (fun _ _ hh => hh) (by rw [e]; exact idm _) (by rw [e]; exact idm _)
+      (by rw [e]) (by rw [e]) (by rw [e]) (by rw [e]) (by rw [e])
   | sendRaa x =>
-    simp only at he; subst he
-    obtain ⟨_, e⟩ := step_sendRaa_true h0
-    exact hbal.quiet hg hg' hb hb' h (fun x => x) (fun _ => ⟨rfl, rfl⟩) (fun _ _ hh => hh) (by rw [e]; simp) (by rw [e]) (by rw [e]) (by rw [e])
-      (by rw [e]) (by rw [e]) (by rw [e])
+    simp only [trueSide] at he; subst he
+    obtain ⟨_, _, e⟩ := step_sendRaa_true h0
+    exact hbal.quiet hg hg' hb hb' h (fun x => x) (fun _ => ⟨rfl, rfl⟩) (fun _ _ hh => hh)
+      (fun x => x) (fun _ => ⟨rfl, rfl⟩) (fun _ _ hh => hh) (by rw [e]; exact idm _) (by rw [e]; exact idm _)
+      (by rw [e]) (by rw [e]) (by rw [e]) (by rw [e]) (by rw [e])
   | recv y =>
-    simp only at he; subst he
-    obtain ⟨m, rest, n, okb, hq, hm, e⟩ := step_recv_true h0
+    simp only [trueSide] at he; subst he
+    obtain ⟨_, m, rest, n, okb, hq, hm, e⟩ := step_recv_true h0
     by_cases hmr : m = .raa
     · subst hmr
       exact hbal.recv_raa hg hg' hb hb' hamt' h hq
     · obtain ⟨e1, e2, g, e3, e4, e5⟩ := onMsg_nonraa hb.ok hm hmr
-      exact hbal.quiet hg hg' hb hb' h g e4 e5 (by rw [e]; exact e3) (by rw [e]) (by rw [e]; exact e1) (by rw [e])
+      exact hbal.quiet hg hg' hb hb' h g e4 e5 (fun x => x) (fun _ => ⟨rfl, rfl⟩) (fun _ _ hh => hh)
+        (by rw [e]; exact e3) (by rw [e]; exact idm _) (by rw [e]; exact e1) (by rw [e])
         (by rw [e]; exact e2) (by rw [e]) (by rw [e])
+  | disconnect =>
+    have e := step_disconnect h0
+    obtain ⟨g, hga, hgid, hgl⟩ := pause_outb_map s.a
+    obtain ⟨g', hgb, hgid', hgl'⟩ := pause_outb_map s.b
+    exact hbal.quiet hg hg' hb hb' h g hgid (fun x _ => hgl x) g' hgid' (fun x _ => hgl' x)
+      (by rw [e]; exact hga) (by rw [e]; exact hgb) (by rw [e]; exact (pause_fields s.a).1) (by rw [e]; exact (pause_fields s.b).1)
+      (by rw [e]; exact (pause_fields s.a).2.1) (by rw [e]; exact (pause_fields s.b).2.1) (by rw [e])
+  | reest y =>
+    simp only [trueSide] at he; subst he
+    obtain ⟨n, p, hr, e⟩ := step_reest_true h0
+    obtain ⟨_, _, _, _, _, en, _⟩ := reestablish_some hr
+    exact hbal.quiet hg hg' hb hb' h (fun x => x) (fun _ => ⟨rfl, rfl⟩) (fun _ _ hh => hh)
+      (fun x => x) (fun _ => ⟨rfl, rfl⟩) (fun _ _ hh => hh) (by rw [e, en]; exact idm _) (by rw [e]; exact idm _)
+      (by rw [e, en]) (by rw [e]) (by rw [e, en]) (by rw [e]) (by rw [e])
 
 theorem Bal.step {s s' : Sys} {e : Ev} (hbal : Bal s) (hg : GoodA s) (hg' : GoodA s.swap)
     (hb : Base s) (hb' : Base s.swap) (hamt : Amt s) (hamt' : Amt s.swap) (h : stepG s e = some s') : Bal s' := by
   have hsw : Bal s'.swap → Bal s' := fun hh => by simpa using hh.swap
   have h' := stepG_swap h
+  have viaSwap : trueSide e.swap → Bal s' := fun he =>
+    hsw (hbal.swap.step_true hg' (by simpa using hg) hb' (by simpa using hb) (by simpa using hamt) h' he)
   cases e with
   | commit x adds fu fa =>
     cases x
-    · exact hsw (hbal.swap.step_true hg' (by simpa using hg) hb' (by simpa using hb) (by simpa using hamt) h' rfl)
+    · exact viaSwap rfl
     · exact hbal.step_true hg hg' hb hb' hamt' h rfl
   | release x =>
     cases x
-    · exact hsw (hbal.swap.step_true hg' (by simpa using hg) hb' (by simpa using hb) (by simpa using hamt) h' rfl)
+    · exact viaSwap rfl
     · exact hbal.step_true hg hg' hb hb' hamt' h rfl
   | sendRaa x =>
     cases x
-    · exact hsw (hbal.swap.step_true hg' (by simpa using hg) hb' (by simpa using hb) (by simpa using hamt) h' rfl)
+    · exact viaSwap rfl
     · exact hbal.step_true hg hg' hb hb' hamt' h rfl
   | recv y =>
     cases y
-    · exact hsw (hbal.swap.step_true hg' (by simpa using hg) hb' (by simpa using hb) (by simpa using hamt) h' rfl)
+    · exact viaSwap rfl
+    · exact hbal.step_true hg hg' hb hb' hamt' h rfl
+  | disconnect => exact hbal.step_true hg hg' hb hb' hamt' h trivial
+  | reest y =>
+    cases y
+    · exact viaSwap rfl
     · exact hbal.step_true hg hg' hb hb' hamt' h rfl
 
 /-! ### the balances of the two views of a commitment_signed about to be processed -/
 
-theorem balance_agree {s : Sys} {c : Commit} {rest : List Msg} (hq : s.qab = Msg.cs c :: rest)
+theorem balance_agree {s : Sys} {c : Commit} {rest : List Msg} (hb : Base s) (hq : s.qab = Msg.cs c :: rest)
     (hbal : Bal s) (hg : GoodA s) (hg' : GoodA s.swap) (hamt' : Amt s.swap) (oka : NodeOK s.a) (okb : NodeOK s.b) :
     (s.a.buildView false true).builderBalance + (s.b.buildView true false).builderBalance = s.total := by
   -- the four claimed sums
@@ -513,7 +569,7 @@ theorem balance_agree {s : Sys} {c : Commit} {rest : List Msg} (hq : s.qab = Msg
     apply sumBy_congr _ (fun _ _ => rfl)
     intro x hx
     have f := good_balI _ (hg x.id)
-    rw [(head_tokens hq x.id).1] at f
+    rw [(head_tokens hb hq x.id).1] at f
     have ho : (cfgA s x.id).o = some x.st := stOut_of_mem oka.sOut hx
     simp only [beq_self_eq_true, Bool.not_true, Bool.false_or, beq_iff_eq] at f
     rw [f, ho]; rfl
@@ -549,7 +605,7 @@ theorem balance_agree {s : Sys} {c : Commit} {rest : List Msg} (hq : s.qab = Msg
     · apply sumBy_congr _ (fun _ _ => rfl)
       intro x hx
       have f := good_balO _ (hg' x.id)
-      rw [(head_tokens hq x.id).2] at f
+      rw [(head_tokens hb hq x.id).2] at f
       have ho : (cfgA s.swap x.id).o = some x.st := stOut_of_mem okb.sOut hx
       simp only [beq_self_eq_true, Bool.not_true, Bool.false_or, beq_iff_eq] at f
       have hi : (cfgA s.swap x.id).i = stIn s.a.inb x.id := rfl
